@@ -106,26 +106,30 @@ MDD_ENGINES = [dict(name="mdd", label="mdd_clean", args=[]), dict(name="mdd", la
 
 PROPS["C13"].update(dict(
     claimed=True,
-    modules=["DdoModel.Props.C13", "DdoModel.Props.C13b"],
+    modules=["DdoModel.Props.C13", "DdoModel.Props.C13b", "DdoModel.Props.C13p"],
     theorems=PROPS["C13"]["theorems"] + ["Ddo.C13.restrict_cur_le_width", "Ddo.C13.relax_cur_le_width", "Ddo.C13.squash_cur_le_width", "Ddo.C13.stepLayer_expandedOf",
-              "Ddo.C13.stepLayer_expanded_le_width", "Ddo.C13.expandAll_domain_calls_le", "Ddo.C13.stepLayer_domain_calls_le_width", "Ddo.C13.compile_expanded_le_width"],
+              "Ddo.C13.stepLayer_expanded_le_width", "Ddo.C13.expandAll_domain_calls_le", "Ddo.C13.stepLayer_domain_calls_le_width", "Ddo.C13.compile_expanded_le_width",
+              "Ddo.C13.compileP_expanded_le_width", "Ddo.C13.compileP_expanded_le_width_restricted", "Ddo.C13.compileP_expanded_le_width_of_index", "Ddo.C13.compileP_expanded_le_width_allImpacted",
+              "Ddo.C13.stepLayerP_domain_calls_le_width"],
     engines=[dict(name="width"), dict(name="mdd", label="mdd_clean", args=[]), dict(name="mdd", label="mdd_pooled", args=["--pooled"])],
     level_text="Sentence 2 (the width-heuristic combinators never yield zero) is proved for every nesting of Times / DivBy / FixedWidth / NbUnassignedWidth and every sub-problem. Sentence 1 (per-layer width bound) is proved on the clean diagram model for every problem, relaxation, ranking, cache, dominance rule, cutoff and outcome: in a restricted compilation no layer, and in a relaxed compilation no layer other than the one directly below the root, hands more than max_width nodes to the expansion (compile_expanded_le_width, through restrict / relax / squash bounds and a loop invariant of buildLoop), and the expansion makes at most one domain enumeration per node (expandAll_domain_calls_le); a kernel-checked witness shows the exception for the first relaxed layer is real. The model is tied to the code by exact equality of the per-layer expansion counts on every explored compilation, and the bound is also evaluated on the implementation (number of for_each_in_domain calls between two next_variable calls, seen by a recording Problem wrapper) for the three diagram implementations.",
-    level_note="Partial: the pooled diagram's bound is covered by correspondence + phi only (theorem on Mdd.lean, not on Pooled.lean). usize arithmetic is the checked arithmetic of the debug / overflow-checks profile. MddWidth.lean / C13b.lean were produced by a delegated proof session and are checked by the same lake build / axiom audit.",
-    stated_not_proved=["the same bound on Pooled.lean (pooled diagram): correspondence + phi only"],
+    level_note="The pooled diagram has its own theorem (compileP_expanded_le_width, no hypothesis): every layer of a restricted compilation, and in a relaxed compilation every layer expanded once two layers have been materialised (pooled.rs tests layers.len() >= 2 and only records non-empty layers: with long arcs the exempt 'first layer below the root' is the first non-empty one, which may come late by iteration index - kernel-checked witness WitnessP; under AllImpacted the statement is literally the clean one). usize arithmetic is the checked arithmetic of the debug / overflow-checks profile. MddWidth.lean / C13b.lean were produced by a delegated proof session and are checked by the same lake build / axiom audit.",
+    stated_not_proved=[],
     trusted_base=MDD_TB + ["usize arithmetic: checked (panic on overflow / underflow / division by zero)"],
     rule="(a) nested width combinators on a grid + random; (b) " + MDD_RULE,
     trivial_tags=["plain"] + MDD_TRIVIAL,
 ))
 
 PROPS["C12"] = dict(
-    modules=["DdoModel.Props.C12", "DdoModel.Props.C12b"],
+    modules=["DdoModel.Props.C12", "DdoModel.Props.C12b", "DdoModel.Props.C12p"],
     theorems=["Ddo.C12.expandAll_calls_ok", "Ddo.C12.expandOne_calls_ok", "Ddo.C12.relaxLayer_calls_ok", "Ddo.C12.mem_sortBy",
               "Ddo.C12.buildLoop_protocol", "Ddo.C12.compile_protocol", "Ddo.C12.buildLoop_first_call", "Ddo.C12.nextVar_depths", "Ddo.C12.nextVar_depth_at",
-              "Ddo.C12.protocolOk_head", "Ddo.C12.protocolOk_cost", "Ddo.C12.protocolOk_domain", "Ddo.C12.protocolOk_merge", "Ddo.C12.protocolOk_relax", "Ddo.C12.bodyOk_iff"],
-    stated_not_proved=["the same protocol theorem on Pooled.lean (pooled diagram, incl. is_impacted_by calls): correspondence (exact equality of the call log) + phiProtocol on the implementation's log only"],
+              "Ddo.C12.protocolOk_head", "Ddo.C12.protocolOk_cost", "Ddo.C12.protocolOk_domain", "Ddo.C12.protocolOk_merge", "Ddo.C12.protocolOk_relax", "Ddo.C12.bodyOk_iff",
+              "Ddo.C12.compileP_protocol", "Ddo.C12.buildLoopP_protocol", "Ddo.C12.buildLoopP_first_call", "Ddo.C12.nextVar_depth_at_pooled", "Ddo.C12.protocolOkP_impacted",
+              "Ddo.C12.protocolOkP_relax", "Ddo.C12.protocolOkP_cost", "Ddo.C12.protocolOkP_domain", "Ddo.C12.protocolOkP_merge", "Ddo.C12.arcAvail_iff"],
+    stated_not_proved=[],
     level_text="For the clean diagram model (LEL and frontier) the whole-compilation protocol is a theorem with no hypothesis at all (any Problem, Relaxation, ranking, compilation type, width - 0 included -, cache, dominance rule, cutoff, fuel): the chronological log of calls into user code is a sequence of layer blocks; block j opens with next_variable(root depth + j, states) - so the depth handed to next_variable is the number of layers since the problem root plus the depth of the sub-problem - and inside a block for_each_in_domain / fast_upper_bound are only called for the block's variable on a state of the layer (or the merged state), every transition follows the domain call of its state with a decision of that domain, every transition_cost immediately follows its transition with dst = transition(src, d), there is at most one merge per layer, over at least two states of the layer, and every relax call receives as merged the state just returned by merge, as dst one of the merged-away states, and as decision / cost exactly the decision and transition_cost of an arc created in the previous block (compile_protocol, through a loop invariant of buildLoop; 1200 lines of Lean). The states handed to next_variable in block j+1 are destinations of block j. The model is tied to the code by exact equality of the call log (as a multiset per compilation, order where the code's order is defined) on every explored compilation, and the protocol predicate is also evaluated in Lean on the chronological log of every implementation run, pooled diagram with long arcs included.",
-    level_note="Partial only in that the pooled diagram is covered by correspondence + phi, not by the theorem. Trusted: recording wrappers around Problem / Relaxation in the harness. MddProtocol.lean / C12b.lean were produced by a delegated proof session and are checked by the same lake build / axiom audit.",
+    level_note="The pooled diagram has its own protocol theorem (compileP_protocol, no hypothesis): same block structure and depths; each complete block starts with exactly one is_impacted_by(var, s) per pool state handed to next_variable, for the selected variable, and they appear nowhere else; the states of a layer are the impacted pool states (plus the merged state); a relax call concerns an arc created in SOME earlier block whose destination stayed in the pool, unimpacted, in every block in between (long arcs) rather than in the previous block; kernel-checked 41-call witness with such a relax. Trusted: recording wrappers around Problem / Relaxation in the harness. MddProtocol.lean / C12b.lean were produced by a delegated proof session and are checked by the same lake build / axiom audit.",
     engines=MDD_ENGINES,
     trusted_base=MDD_TB,
     assumptions=["the harness families compute the relaxed cost from dst and merged (relax = cost + slack * |merged \\ dst|), so swapped arguments change results"],
@@ -250,14 +254,16 @@ PROPS["C15"] = dict(
 )
 
 PROPS["C07"] = dict(
-    modules=["DdoModel.Props.C07", "DdoModel.Props.C07b"],
+    modules=["DdoModel.Props.C07", "DdoModel.Props.C07b", "DdoModel.Props.C07p"],
     theorems=["Ddo.C07.restricted_sound", "Ddo.C07.restricted_sound_detail", "Ddo.C07.exact_nodes_reachable", "Ddo.C07.exact_nodes_reachable_gen",
               "Ddo.C07.exact_nodes_step", "Ddo.C07.root_reach", "Ddo.buildLoop_exact_reach", "Ddo.finalize_bestSol_eq",
               "Ddo.C07.exact_mode_opt", "Ddo.C07.exact_mode_opt_rel", "Ddo.C07.exact_mode_opt_value", "Ddo.C07.restricted_exact_truthful", "Ddo.C07.restricted_exact_truthful_rel",
-              "Ddo.C07.restricted_exact_value", "Ddo.C07.nonrelaxed_le_opt", "Ddo.C07.exact_mode_le", "Ddo.C07.CounterCache.counter", "Ddo.C07.CounterClamp.counter"],
-    stated_not_proved=["pooled diagram (correspondence + phi)", "the optimum clauses with a cutoff position (stopAt = none in the theorems)"],
+              "Ddo.C07.restricted_exact_value", "Ddo.C07.nonrelaxed_le_opt", "Ddo.C07.exact_mode_le", "Ddo.C07.CounterCache.counter", "Ddo.C07.CounterClamp.counter",
+              "Ddo.C07.exact_nodes_reachable_pooled", "Ddo.C07.exact_nodes_reachable_pooled_compile", "Ddo.C07.exact_nodes_reachable_pooled_allImpacted", "Ddo.C07.restricted_sound_pooled",
+              "Ddo.C07.restricted_sound_pooled_allImpacted", "Ddo.ReachSkip.toReach", "Ddo.Reach.toSkip"],
+    stated_not_proved=["the optimum clauses for the pooled diagram (correspondence + phi)", "the optimum clauses with a cutoff position (stopAt = none in the theorems)"],
     level_text="For the clean diagram model (all compilation types, any cache / dominance configuration, any cutoff): every node flagged exact anywhere in the diagram is genuinely reached from the problem root by the decisions of its best-arc chain with exactly its value and depth (invariant of the whole compilation loop, 1150 lines of Lean); hence a restricted or exact compilation never reports a value above the sub-problem optimum: its best value is that of a genuinely feasible complete solution, and the reported best_solution is the root path followed by exactly those decisions (restricted_sound). The remaining clauses (an exact-claiming restricted diagram and exact mode reach the optimum) are evaluated as property predicates against the exact value-to-go of every explored instance. The model is tied to the code by complete observation of single compilations (engine mdd).",
-    level_note="The optimum clauses are theorems as well (C07b / MddTruth.lean): in isolation, for a well-formed model (Potential, RubOk, NoClamp; no MergeOk / AttMerge / width hypothesis), a compilation in exact mode declares itself exact and reports the optimum of the sub-problem with a feasible solution of that value whenever the optimum beats the incumbent, whatever the width (exact_mode_opt); a restricted compilation that declares itself exact does the same (restricted_exact_truthful); any restricted / exact compilation reports at most the optimum (nonrelaxed_le_opt, any cache / dominance / cutoff). Isolation is necessary: CounterCache is a kernel-checked restricted compilation with one explored cache entry that is 'exact' yet reports nothing while the optimum beats the incumbent; CounterClamp shows the guard on saturation is necessary. The pooled model is covered by correspondence + phi only. Hypothesis NoClamp: costs bounded so that isize saturation never fires on path values. MddExact.lean was produced by a delegated proof session and is checked by the same lake build / axiom audit.",
+    level_note="The optimum clauses are theorems as well (C07b / MddTruth.lean): in isolation, for a well-formed model (Potential, RubOk, NoClamp; no MergeOk / AttMerge / width hypothesis), a compilation in exact mode declares itself exact and reports the optimum of the sub-problem with a feasible solution of that value whenever the optimum beats the incumbent, whatever the width (exact_mode_opt); a restricted compilation that declares itself exact does the same (restricted_exact_truthful); any restricted / exact compilation reports at most the optimum (nonrelaxed_le_opt, any cache / dominance / cutoff). Isolation is necessary: CounterCache is a kernel-checked restricted compilation with one explored cache entry that is 'exact' yet reports nothing while the optimum beats the incumbent; CounterClamp shows the guard on saturation is necessary. Pooled diagram: exact_nodes_reachable_pooled / restricted_sound_pooled - the same soundness statements with ReachSkip (a path in which a layer whose variable does not impact the state contributes no decision: long arcs), which coincides with Reach when every state is impacted by every variable. Hypothesis NoClamp: costs bounded so that isize saturation never fires on path values. MddExact.lean was produced by a delegated proof session and is checked by the same lake build / axiom audit.",
     engines=MDD_ENGINES, trusted_base=MDD_TB,
     assumptions=["NoClamp (no isize saturation on path values)", "the root sub-problem is exact (Reach)"],
     rule=MDD_RULE, trivial_tags=MDD_TRIVIAL,
@@ -328,10 +334,11 @@ PROPS["C05"]["level_note"] = "Parallel part: sys_cutoff_bounds - in every reacha
 PROPS["C05"]["stated_not_proved"] = ["the bound with a crashed worker (NoCrash is necessary: a worker that panics inside get_workload holds a popped node whose bound never reached upper_bounds; the real code then re-raises the panic and reports nothing)"]
 
 PROPS["C08"] = dict(
-    modules=["DdoModel.Props.C08", "DdoModel.Props.C08b"],
+    modules=["DdoModel.Props.C08", "DdoModel.Props.C08b", "DdoModel.Props.C08p"],
     theorems=["Ddo.C08.finalize_cutset", "Ddo.C08.cutset_exact", "Ddo.C08.cutset_progress", "Ddo.C08.cutset_empty_of_exact", "Ddo.compile_wf",
-              "Ddo.C08.cutset_ub_valid", "Ddo.C08.cutset_cover", "Ddo.Bounds.computeCutset_frontier_mem", "Ddo.Bounds.compile_lbmax_cutset"],
-    stated_not_proved=["pooled diagram: (ii) is false with long arcs in the current code (open known finding D5); (i), (iii), (iv) for the pooled model by correspondence + phi only",
+              "Ddo.C08.cutset_ub_valid", "Ddo.C08.cutset_cover", "Ddo.Bounds.computeCutset_frontier_mem", "Ddo.Bounds.compile_lbmax_cutset",
+              "Ddo.C08.cutset_exact_pooled", "Ddo.C08.cutset_progress_pooled_allImpacted", "Ddo.C08.not_cutset_progress_pooled"],
+    stated_not_proved=["pooled diagram: (ii) is FALSE with long arcs in the current code (open known finding D5) - refuted on the model by a kernel-checked witness (not_cutset_progress_pooled: the cut-set contains the root itself), proved under AllImpacted; (i) is proved for the pooled model in general (cutset_exact_pooled); (iii), (iv) for the pooled model by correspondence + phi only",
                        "(iii) / (iv) with a threshold cache or a dominance rule (the property is about diagrams compiled in isolation)"],
     level_text="All four clauses are theorems about the clean diagram model, for both cut-set kinds (last exact layer and frontier), both admissible resolutions of the exact-best-path tie, any cutoff position: (i) every sub-problem handed out by the cut-set is exact - genuinely reached from the problem root by its path (root path followed by the decisions of its best-arc chain) with exactly its value and depth - and (ii) lies strictly deeper than the sub-problem the diagram was compiled for; the cut-set is empty when no layer was squashed (any cache / dominance configuration for (i), (ii)). For a relaxed compilation in isolation of a well-formed model (Potential, RubOk, MergeOk, AttMerge, NoClamp): (iii) the ub recorded for a cut-set sub-problem - min(value + rub, value + local bound, best value of the diagram), exactly the field the code computes - is at least the value of the best completion through it whenever that completion beats the incumbent, and (iv) if the optimum of the root sub-problem beats both the incumbent and the best exact value found, some cut-set sub-problem still carries it. Proved through invariants of the whole compilation loop (arcs between consecutive layers; exactness up to the last exact layer; a liveness invariant with potential-preserving paths for the bottom-up local bounds; 975 + 1150 + 2430 lines of Lean), with kernel-checked instances on which the bounds of (iii) are tight. For the pooled diagram the checks rediscover D5 (clause (ii) fails with long arcs), recorded as an open known finding.",
     level_note="(iii) / (iv) are stated in potential form (H: value of the best completion of a state at a depth) under the same hypotheses as C06.relaxed_ub plus exactness of the root sub-problem (Reach); the driver additionally evaluates all four clauses against the exact value-to-go on every explored compilation. (iii) is evaluated only for compilations that received no dominance verdict (a child pruned in favour of a dominator of the same layer is soundly missing from the local bound - decision recorded in DESIGN.md 11.3). Pooled model: correspondence + phi with an open known finding. MddCutset.lean / MddBounds.lean were produced by delegated proof sessions, checked by the same lake build / axiom audit.",
